@@ -6,6 +6,7 @@ package comet
 
 import (
 	"math"
+	"runtime"
 	"testing"
 
 	"pgregory.net/rapid"
@@ -323,9 +324,25 @@ func vfC20Run(c vfC20Case, ctx *vfCtx) *vfViolation {
 		}
 		return cents, mapping, nil
 	}
-	cents, _, v := checkKMeans("KMeans", dist, func(vs [][]float32, maxIter int) ([][]float32, []int) { return KMeans(vs, c.K, dist, maxIter) })
+	cents, mapping0, v := checkKMeans("KMeans", dist, func(vs [][]float32, maxIter int) ([][]float32, []int) { return KMeans(vs, c.K, dist, maxIter) })
 	if v != nil {
 		return v
+	}
+	// "identical output for identical input" also when the process has another number of processors at
+	// its disposal (one case in eight; float32 sums must not depend on how work is split)
+	if c.K > 0 && (len(c.Vectors)+c.K)%8 == 0 {
+		prev := runtime.GOMAXPROCS(0)
+		other := 1
+		if prev == 1 {
+			other = 3
+		}
+		runtime.GOMAXPROCS(other)
+		c1, m1 := KMeans(vfClone2D(c.Vectors), c.K, dist, c.MaxIter)
+		runtime.GOMAXPROCS(prev)
+		if !vfEqual2D(cents, c1) || !vfIntsEqual(mapping0, m1) {
+			return vfFail("KMeans returns different output for identical input under GOMAXPROCS=%d and GOMAXPROCS=%d", prev, other)
+		}
+		ctx.Class("kmeans_compared_across_GOMAXPROCS")
 	}
 	if kind == L2Squared {
 		if _, _, v := checkKMeans("KMeansSubspace", dist, func(vs [][]float32, maxIter int) ([][]float32, []int) { return KMeansSubspace(vs, c.K, maxIter) }); v != nil {
@@ -460,6 +477,14 @@ func vfC20Run(c vfC20Case, ctx *vfCtx) *vfViolation {
 		if len(out) != len(c.Half) {
 			return vfFail("float16 quantiser changed the length: %d -> %d", len(c.Half), len(out))
 		}
+		// a reconstruction stays what it is when the quantiser is used again
+		keep := vfCloneF32(out)
+		if st2, err := hq.Quantize([]float32{1, -2, 60000, 0.5}); err == nil {
+			hq.Dequantize(st2)
+		}
+		if !vfBitsEqual(out, keep) {
+			return vfFail("float16: a reconstruction returned by Dequantize changed when the quantiser was used again (%v -> %v)", keep, out)
+		}
 		for i, x := range c.Half {
 			if math.Abs(float64(out[i])-float64(x)) > math.Abs(float64(x))/2048 {
 				return vfFail("float16 round trip of %v gives %v (more than half an ulp of half precision)", x, out[i])
@@ -557,6 +582,13 @@ func vfC20Run(c vfC20Case, ctx *vfCtx) *vfViolation {
 		}
 		if len(out) != len(in) {
 			return vfFail("int8 quantiser changed the length")
+		}
+		keep8 := vfCloneF32(out)
+		if st2, err := q8.Quantize([]float32{float32(am), 0, float32(-am / 2)}); err == nil {
+			q8.Dequantize(st2)
+		}
+		if !vfBitsEqual(out, keep8) {
+			return vfFail("int8: a reconstruction returned by Dequantize changed when the quantiser was used again")
 		}
 		for i := range in {
 			if math.Abs(float64(out[i])-float64(in[i])) > am/254+8*vfEps32*am {
